@@ -17,6 +17,7 @@ import (
 	"context"
 	"fmt"
 	"math/big"
+	"strconv"
 	"strings"
 
 	"github.com/attestantio/go-block-relay/services/blockauctioneer"
@@ -33,6 +34,9 @@ import (
 	"go.opentelemetry.io/otel/attribute"
 	"go.opentelemetry.io/otel/trace"
 )
+
+// maxBuilderBidsCacheSlots is the number of slots for which cached builder bids are kept.
+const maxBuilderBidsCacheSlots = 32
 
 // AuctionBlock obtains the best available use of the block space.
 func (s *Service) AuctionBlock(ctx context.Context,
@@ -125,6 +129,13 @@ func (s *Service) cacheBid(_ context.Context,
 		s.builderBidsCache[key] = make(map[string]*builderspec.VersionedSignedBuilderBid)
 	}
 	s.builderBidsCache[key][subKey] = bid
+	// Bids are only asked for around the slot they are for; remove those of old slots.
+	for cachedKey := range s.builderBidsCache {
+		cachedSlot, err := strconv.ParseUint(cachedKey, 10, 64)
+		if err != nil || cachedSlot+maxBuilderBidsCacheSlots < uint64(slot) {
+			delete(s.builderBidsCache, cachedKey)
+		}
+	}
 	s.builderBidsCacheMu.Unlock()
 }
 
